@@ -1493,11 +1493,11 @@ func init() {
 		Required: req,
 		Streams: []fw.Stream{
 			{Name: "probes", Quick: len(c19ProbeNames), Thorough: len(c19ProbeNames), Run: c19Probes},
-			{Name: "script", Quick: 30000, Thorough: 1000000, Run: c19Script},
-			{Name: "trunc", Quick: 3000, Thorough: 100000, Run: c19Trunc},
-			{Name: "seek", Quick: 1300, Thorough: 26000, Run: c19Seek},
-			{Name: "bitmap", Quick: 40000, Thorough: 1000000, Run: c19Bitmap},
-			{Name: "parallel", Quick: 600, Thorough: 12000, Run: c19Parallel, Race: true},
+			{Name: "script", Quick: 30000, Thorough: 4000000, Run: c19Script},
+			{Name: "trunc", Quick: 3000, Thorough: 400000, Run: c19Trunc},
+			{Name: "seek", Quick: 1300, Thorough: 104000, Run: c19Seek},
+			{Name: "bitmap", Quick: 40000, Thorough: 4000000, Run: c19Bitmap},
+			{Name: "parallel", Quick: 600, Thorough: 48000, Run: c19Parallel, Race: true},
 		},
 	})
 }
